@@ -95,9 +95,21 @@ def rejection_sampling(ctx, world, ev):
     ctx.require(isinstance(f, FuncV), "anchor vanished: util.unbiased_randrange")
     site = (ut.relpath, f.node.lineno, "unbiased_randrange")
     loops = [n for n in ast.walk(f.node) if isinstance(n, (ast.While, ast.For))]
-    ctx.ob("R0", "loop shape", len(loops) == 1 and isinstance(loops[0], ast.While) and isinstance(loops[0].test, ast.Constant) and loops[0].test.value is True
-           and not any(isinstance(n, ast.Break) for n in ast.walk(loops[0])),
-           "one `while True:` loop left only by return" if len(loops) == 1 else "unbiased_randrange has %d loops" % len(loops), site)
+    def unbounded(lp):
+        if isinstance(lp, ast.While):
+            return isinstance(lp.test, ast.Constant) and lp.test.value in (True, 1)
+        it = lp.iter                                   # for _ in itertools.count(...): never exhausted
+        if isinstance(it, ast.Call) and not lp.orelse:
+            d = it.func
+            v = world.static_lookup(ut, d.value.id) if isinstance(d, ast.Attribute) and isinstance(d.value, ast.Name) else \
+                world.static_lookup(ut, d.id) if isinstance(d, ast.Name) else None
+            from ..terms import ExtV
+            name = (v.name + "." + d.attr) if isinstance(d, ast.Attribute) and isinstance(v, ExtV) else (v.name if isinstance(v, ExtV) else None)
+            return name == "itertools.count"
+        return False
+    ctx.ob("R0", "loop shape", len(loops) == 1 and unbounded(loops[0]) and not any(isinstance(n, ast.Break) for n in ast.walk(loops[0])),
+           "one unbounded loop (`while True:` / `for _ in itertools.count()`) left only by return" if len(loops) == 1 else
+           "unbiased_randrange has %d loops" % len(loops), site)
     if len(loops) != 1:
         return
     loop = loops[0]
@@ -161,8 +173,8 @@ def rejection_sampling(ctx, world, ev):
                "accepted iterations also depend on %s: some draws are discarded for another reason, so values are not equally likely" % extra, site)
         # R3/R6: candidate = be2int(bytes([mask & D[0]] + D[1:])) with D a fresh draw of num_bytes
         ok3, why3, mask, nb = False, "", None, None
-        if is_app(cand, "be2int") and is_app(cand.args[0], "bytes"):
-            lst = cand.args[0].args[0]
+        if is_app(cand, "be2int"):
+            lst = cand.args[0].args[0] if is_app(cand.args[0], "bytes") else cand.args[0]
             # normal form of "[mask & D[0]] + D[1:]" and of "D[0] = mask & D[0]": setitem(D, 0, mask & D[0])
             if is_app(lst, "setitem") and lst.args[1] == Const(0) and is_app(lst.args[2], "BitAnd"):
                 D = lst.args[0]
